@@ -758,6 +758,10 @@ class Seam:
         # descriptors leaked by the code under test (generators not closed...)
         for fd in list(self._fds):
             self.stats['leaked_fds'] = self.stats.get('leaked_fds', 0) + 1
+            try:
+                _o['os.close'](fd)       # (so that a leaking code under test does not exhaust the worker process)
+            except OSError:
+                pass
         self._fds.clear()
         return False
 
